@@ -355,3 +355,14 @@ Theorem C11_returned_throw_means_error : forall cf sched, guard cf ->
   In x (thrown g) /\ forall s, In s (sigs g) -> exists y, sg s = SError (Some y).
 Proof. exact returned_throw_means_error. Qed.
 Print Assumptions C11_returned_throw_means_error.
+
+(* a call returns only if it was entered (exit log ⊆ call log), and a thread inside f(i) has i in the
+   call log — every reachable state, every configuration (no guard needed) *)
+Theorem C11_exits_are_calls : forall cf sched,
+  ExitInv (fst (brun cf sched)) (snd (brun cf sched)).
+Proof. exact exit_inv_run. Qed.
+Print Assumptions C11_exits_are_calls.
+
+Example C11_exit_inv_unfolds : forall g ls, ExitInv g ls <->
+  (forall x, In x (exits g) -> called g x) /\ (forall t i, in_call (ls t) = Some i -> called g i).
+Proof. intros g ls. unfold ExitInv. tauto. Qed.
